@@ -329,6 +329,8 @@ def do_replay(pid, path):
 
 def main_check(pid, tier, seed, write_evidence=True):
     t0 = time.time()
+    if os.environ.get("VERIF_NO_EVIDENCE"):
+        write_evidence = False
     spec = PLAN.PROPERTIES[pid]
     known = load_known()
     out_lines = []
